@@ -995,13 +995,14 @@ def run_case(case, ch: Choices) -> RunResult:
                 if _tainted:
                     key["shared_union_attr"] = True
                 res.violations.append(Violation(cls, "operation #%d: %s" % (len(history) - 1, detail), dict(key)))
-            if inject:
-                if exc is None or type(exc).__name__ != "ReadTimeout":
-                    V("fault-outcome", "the transport timed out while sending; the call %s" % ("returned" if exc is None else "raised %s: %s" % (type(exc).__name__, str(exc)[:200])))
+            if inject and (exc is None or type(exc).__name__ == "ReadTimeout"):
+                if exc is None:
+                    V("fault-outcome", "the transport timed out while sending; the call returned")
                 else:
                     res.bump("fault.transport_error_during_send")
                 trace.append("op#%d %s -> transport time-out injected" % (len(history) - 1, json.dumps(op)[:300]))
                 continue
+            # (any other exception - the builder failing before anything was sent - is judged like that of every other send)
             if exc is not None:
                 V("builder-raised", "sending the expression raised %s: %s" % (type(exc).__name__, str(exc)[:300]), exc=type(exc).__name__)
                 trace.append("op#%d %s -> raised %r" % (len(history) - 1, json.dumps(op)[:700], exc))
